@@ -480,8 +480,10 @@ func TestC08Proportional(t *testing.T) {
 		Entries int `json:"entries"`
 		ValLen  int `json:"val_len"`
 	}
-	cases := []C{{1, 1 << 20}, {4, 4 << 20}, {2000, 100}, {1, 24 << 20}}
-	vcore.RunEnum(t, vcore.Config{Property: "C08", Rule: "enumerated highly compressible valid snapshots; non-trivial = decompressed size > 1 MiB"},
+	// ValLen -1: a DBI made of nothing but empty entries (tag + length 0: what no writer produces, a few
+	// kilobytes compressed for megabytes of them); -2: the same between two ordinary entries
+	cases := []C{{1, 1 << 20}, {4, 4 << 20}, {2000, 100}, {1, 24 << 20}, {6_000_000, -1}, {3_000_000, -2}}
+	vcore.RunEnum(t, vcore.Config{Property: "C08", Inflight: true, Rule: "enumerated highly compressible snapshots (huge values, thousands of entries, millions of empty entries) through the container-layer oracle (no crash - a fatal stack overflow included -, bounded time and allocation); non-trivial = decompressed size > 1 MiB"},
 		func(yield func(C) bool) {
 			for _, c := range cases {
 				if !yield(c) {
@@ -489,6 +491,18 @@ func TestC08Proportional(t *testing.T) {
 				}
 			}
 		}, func(c C, o *vcore.Obs) error {
+			if c.ValLen < 0 {
+				body := bytes.Repeat([]byte{model.DBIEntries<<3 | model.WTBytes, 0}, c.Entries)
+				if c.ValLen == -2 {
+					kv := model.EncodeMsg([]model.Item{{Field: model.KVKey, WT: model.WTBytes, Bytes: []byte("k")}, {Field: model.KVValue, WT: model.WTBytes, Bytes: []byte("v")}})
+					ent := model.EncodeMsg([]model.Item{{Field: model.DBIEntries, WT: model.WTBytes, Bytes: kv}})
+					body = append(append(append([]byte{}, ent...), body...), ent...)
+				}
+				dbi := append(model.EncodeMsg([]model.Item{{Field: model.DBIName, WT: model.WTBytes, Bytes: []byte("d")}}), body...)
+				pb := model.EncodeMsg([]model.Item{{Field: model.SnapFormatVersion, WT: model.WTVarint, Varint: 3}, {Field: model.SnapDatabases, WT: model.WTBytes, Bytes: dbi}})
+				o.NonTrivial(true)
+				return blobOracle(gz(pb), o)
+			}
 			m := model.Snap{FormatVersion: 3, DBIs: []model.DBI{{Name: "d"}}}
 			for i := 0; i < c.Entries; i++ {
 				m.DBIs[0].Entries = append(m.DBIs[0].Entries, model.KV{Key: []byte(fmt.Sprintf("k%06d", i)), Val: model.Val{Len: c.ValLen}, TS: 1})
